@@ -740,3 +740,36 @@ impl Family for FSortMixed {
         module(vec![("main", func(&[], cards))])
     }
 }
+
+
+/// Globals whose first mention (in compilation order) is a dotted name: a property read `cfg.speed`,
+/// the prefix read of a dotted assignment `cfg.a.b = ..`, in main or in a function compiled before
+/// the one that assigns the global plainly. The name table must list `cfg`, not the dotted path.
+pub struct FDottedGlobals;
+
+impl Family for FDottedGlobals {
+    fn name(&self) -> &'static str {
+        "F-dotted-globals"
+    }
+    fn len(&self) -> u64 {
+        8
+    }
+    fn case(&self, idx: u64) -> Module {
+        let first = idx % 4;
+        let setter_first = idx / 4 == 1;
+        let mention: C = match first {
+            0 => sg("out", rv("cfg.speed")),
+            1 => sv("cfg.a.b", int(1)),
+            2 => sg("out", bin(BinOp::Add, rv("cfg.speed"), rv("other.x.y"))),
+            _ => C::IfTrue(b(int(0)), b(sg("out", rv("cfg.speed")))),
+        };
+        let setter = func(&[], vec![sg("cfg", C::CreateTable), sg("other", C::CreateTable)]);
+        let user = func(&[], vec![mention]);
+        let functions = if setter_first {
+            vec![("main", func(&[], vec![call("setter", vec![]), call("user", vec![])])), ("setter", setter), ("user", user)]
+        } else {
+            vec![("main", func(&[], vec![call("setter", vec![]), call("user", vec![])])), ("user", user), ("setter", setter)]
+        };
+        module(functions)
+    }
+}
